@@ -44,6 +44,18 @@ def _isinstance_classes(repo, module, node):
     return out
 
 
+def _parents(n):
+    p = getattr(n, '_parent', None)
+    while p is not None:
+        yield p
+        p = getattr(p, '_parent', None)
+
+
+def _enclosing_name(n):
+    names = [p.name for p in _parents(n) if isinstance(p, (ast.FunctionDef, ast.ClassDef))]
+    return '.'.join(reversed(names)) or '<module>'
+
+
 def _expr_classes(repo):
     texexpr = repo.need_cls('data.TexExpr')
     return texexpr, [c for c in repo.modules['data'].classes.values() if c.is_subclass_of(texexpr)]
@@ -125,6 +137,27 @@ def r04_a(ctx):
             rr.fail(Finding('R04.a', 'data', fd.qual, conds[0].test if conds else 'contents filter',
                             'the contents view drops something other than whitespace-only text (or keeps it): it is no '
                             'longer the complete content list without blank text', line=fd.node.lineno))
+    # whitespace is dropped for every node the parser builds: the keep-whitespace flag is set only by the
+    # constructor from its (default False) parameter, and no parser call turns it on
+    flag_writes = []
+    for m in repo.modules.values():
+        for n in ast.walk(m.tree):
+            if isinstance(n, (ast.Assign, ast.AugAssign)):
+                for t in (n.targets if isinstance(n, ast.Assign) else [n.target]):
+                    if isinstance(t, ast.Attribute) and t.attr == 'preserve_whitespace':
+                        flag_writes.append((m, n))
+            if isinstance(n, ast.Call) and m.name in ('reader', 'tex', '__init__', 'tokens'):
+                for k in n.keywords:
+                    if k.arg == 'preserve_whitespace' and not (isinstance(k.value, ast.Constant) and k.value.value is False):
+                        flag_writes.append((m, n))
+    for m, n in flag_writes:
+        in_ctor = any(isinstance(p_, ast.FunctionDef) and p_.name == '__init__' for p_ in _parents(n))
+        ok = m.name == 'data' and in_ctor and isinstance(n, ast.Assign) and norm(n.value) == 'preserve_whitespace'
+        rr.ob(ok, {'keep_whitespace_flag_set_by': '%s:%s' % (m.name, norm(n)[:60])})
+        if not ok:
+            rr.fail(Finding('R04.a', m.name, _enclosing_name(n), n, 'the keep-whitespace flag of a node is set outside the '
+                            'constructor default: for such nodes the contents view keeps whitespace-only text, so '
+                            'contents/children/text are no longer the complete list without blank text', line=n.lineno))
     # no view sorts / reverses / dedups
     for cls, names in ((texexpr, ('all', 'children', 'contents')), (node, ('all', 'children', 'contents', 'text'))):
         for nm in names:
@@ -475,6 +508,60 @@ def r05_b(ctx):
         if not ok:
             rr.fail(Finding('R05.b', 'data', fd.qual, c, 'replace does not insert at the index at which the child was '
                             'removed from the same container: the new material lands elsewhere', line=c.lineno))
+    return rr
+
+
+def _search_sources(fnode, var):
+    """lists searched to compute the index variable `var`: enumerate(Y) in a generator with an identity/equality
+    test, or Y.index(v)"""
+    out = []
+    for a in ast.walk(fnode):
+        if isinstance(a, ast.Assign) and isinstance(a.targets[0], ast.Name) and a.targets[0].id == var:
+            for n in ast.walk(a.value):
+                if isinstance(n, (ast.GeneratorExp, ast.ListComp)):
+                    for g in n.generators:
+                        it = g.iter
+                        if isinstance(it, ast.Call) and norm(it.func) == 'enumerate' and it.args:
+                            out.append((it.args[0], a))
+                        else:
+                            out.append((it, a))
+                if isinstance(n, ast.Call) and isinstance(n.func, ast.Attribute) and n.func.attr == 'index':
+                    out.append((n.func.value, a))
+    return out
+
+
+def r05_d(ctx):
+    repo = ctx.repo
+    texexpr, _ = _expr_classes(repo)
+    rr = RuleResult('R05.d', 'the index at which a child is removed (and which replace re-uses) is computed by searching '
+                    'the very list that is edited', floor=1)
+    n_sites = 0
+    for cname, mname in (('TexExpr', 'remove'), ('TexExpr', 'insert')):
+        fd = _m(repo.need_cls('data.' + cname), mname)
+        for n in ast.walk(fd.node):
+            edited = idx = None
+            if isinstance(n, ast.Delete):
+                for t in n.targets:
+                    if isinstance(t, ast.Subscript) and isinstance(t.slice, ast.Name):
+                        edited, idx = t.value, t.slice.id
+            elif isinstance(n, ast.Call) and isinstance(n.func, ast.Attribute) and n.func.attr == 'pop' and n.args \
+                    and isinstance(n.args[0], ast.Name):
+                edited, idx = n.func.value, n.args[0].id
+            if edited is None:
+                continue
+            srcs = _search_sources(fd.node, idx)
+            if not srcs:
+                continue
+            n_sites += 1
+            bad = [(y, a) for y, a in srcs if norm(y) != norm(edited)]
+            rr.ob(not bad, {'function': fd.qual, 'edited_list': norm(edited), 'searched': sorted({norm(y) for y, a in srcs})})
+            for y, a in bad:
+                rr.fail(Finding('R05.d', 'data', fd.qual, a, 'the child is looked up in %s but removed from %s at the '
+                                'index found: with argument groups present the index is shifted and a sibling is edited'
+                                % (norm(y), norm(edited)), line=a.lineno))
+        # the returned index is the same variable
+    if n_sites == 0:
+        rr.ob(True, {'note': 'removal does not go through a computed index'})
     return rr
 
 
